@@ -47,9 +47,17 @@ vars == <<doc, cursor, count>>
 
 CONSTANTS LitSet      \* which literal palette this model uses
 \* layers: number of directly nested let blocks around the set; inc: an own-line comment follows every `in'
-Skeletons == {[head |-> h, layers |-> 0, inc |-> FALSE, rec |-> FALSE, items |-> <<>>, foot |-> FALSE] : h \in Heads}
-             \cup {[head |-> h, layers |-> l, inc |-> c, rec |-> r, items |-> <<>>, foot |-> FALSE] :
-                      h \in {"none", "lam_formals_ml", "lam_id"}, l \in {1, 2, 3}, c \in BOOLEAN, r \in BOOLEAN}
+\* gap: own-line comments (with single blank lines) in the keyword-delimited gaps of the let blocks and of the head:
+\*   "before_in"  a blank line and a comment between the last binding and `in'
+\*   "two_before_in"  two comments separated by a blank line there
+\*   "after_let"  a comment between `let' and the first binding
+\*   "blank_after_in"  a blank line and a comment between `in' (or `with ..;' / `assert ..;') and what follows
+LetGaps == {"none", "before_in", "two_before_in", "after_let", "blank_after_in"}
+Skel(h, l, c, g, r) == [head |-> h, layers |-> l, inc |-> c, gap |-> g, rec |-> r, items |-> <<>>, foot |-> FALSE]
+Skeletons == {Skel(h, 0, FALSE, "none", FALSE) : h \in Heads}
+             \cup {Skel(h, 0, FALSE, "blank_after_in", FALSE) : h \in {"with", "assert"}}
+             \cup {Skel(h, l, TRUE, "none", r) : h \in {"none", "lam_formals_ml", "lam_id"}, l \in {1, 2, 3}, r \in BOOLEAN}
+             \cup {Skel(h, l, FALSE, g, r) : h \in {"none", "lam_formals_ml", "lam_id"}, l \in {1, 2, 3}, g \in LetGaps, r \in BOOLEAN}
 Init == /\ doc \in Skeletons
         /\ cursor = <<>> /\ count = 0
 
